@@ -268,7 +268,14 @@ impl<K: KeyT, V: ValT> World<K, V> {
                         meta
                     } else {
                         let map = self.map(s);
-                        measure(|| p.install(|| map.par_extend(objs))).1
+                        if op.get("chain").is_some() && objs.len() >= 2 {
+                            // an unbalanced split tree: a one-element head chained with the long tail
+                            let mut head = objs;
+                            let tail = head.split_off(1);
+                            measure(|| p.install(|| map.par_extend(head.into_par_iter().chain(tail.into_par_iter())))).1
+                        } else {
+                            measure(|| p.install(|| map.par_extend(objs))).1
+                        }
                     }
                 } else {
                     let objs: Vec<K> = items.iter().map(|&(k, _)| K::new(k)).collect();
